@@ -709,6 +709,54 @@ func C16(c *core.Ctx) {
 		}
 		c.Floor("R16.9", "walks that remove a face's routes over the RIB", nWalk, 1)
 	}
+	// ---- R16.10 a removed face is gone from the face table before its routes are cleaned. The
+	// command handlers (rib/register, fib/add-nexthop) insert first and look the face up again
+	// afterwards, withdrawing what they inserted when it is gone: that closes the race with
+	// face removal only if the removal deletes the face from the face table BEFORE it cleans
+	// the RIB and the FIB — in the other order a registration that falls between the clean-up
+	// and the deletion finds the face, keeps its route, and nothing ever removes it.
+	if rm := c.Fn("R16.10", "fw/face", "Table", "Remove"); rm != nil {
+		isDel := func(x ssa.Instruction) bool {
+			ci, ok := x.(ssa.CallInstruction)
+			if !ok {
+				return false
+			}
+			if b, isB := ci.Common().Value.(*ssa.Builtin); isB && b.Name() == "delete" && len(ci.Common().Args) == 2 {
+				_, path := core.FieldPath(ci.Common().Args[0])
+				return len(path) > 0 && path[len(path)-1] == "faces"
+			}
+			if cal := ci.Common().StaticCallee(); cal != nil && cal.Name() == "Delete" && len(ci.Common().Args) > 0 {
+				if fa, isFA := ci.Common().Args[0].(*ssa.FieldAddr); isFA {
+					_, fld := core.FieldAddrName(fa)
+					return fld == "faces"
+				}
+			}
+			return false
+		}
+		var cleans []ssa.CallInstruction
+		for _, ci := range core.FindCallsDeep(rm, core.CalleeID{Pkg: "fw/table", Recv: "RibTable", Name: "CleanUpFace"}) {
+			cleans = append(cleans, ci)
+		}
+		core.InstrsDeep(rm, func(in ssa.Instruction) {
+			if ci, ok := in.(ssa.CallInstruction); ok {
+				if cal := ci.Common().StaticCallee(); cal != nil && cal.Pkg != nil && strings.HasSuffix(cal.Pkg.Pkg.Path(), "/fw/face") && len(core.FindCallsDeep(cal, core.CalleeID{Pkg: "fw/table", Recv: "FibStrategy", Name: "RemoveNextHopEnc"})) > 0 {
+					cleans = append(cleans, ci)
+				}
+			}
+		})
+		if len(cleans) == 0 {
+			c.Und("R16.10", "face-deleted-before-cleanup", p.Pos(rm.Pos()), "face.Table.Remove no longer cleans the RIB / FIB")
+		}
+		bad := ""
+		for _, cl := range cleans {
+			if !core.PrecedesDeep(rm, cl, isDel) {
+				bad = c.Pos(cl)
+			}
+		}
+		if len(cleans) > 0 {
+			c.Decide(bad == "", "R16.10", "face-deleted-before-cleanup", p.Pos(rm.Pos()), fmt.Sprintf("the face leaves the face table before each of the %d clean-up calls", len(cleans)), "face.Table.Remove cleans the routes / next hops of the face (at "+bad+") before it deletes the face from the face table: rib/register and fib/add-nexthop insert first and then look the face up again — a command that runs between the clean-up and the deletion still finds the face, keeps its route, and the route to the dead face stays for good (the final tables equal no sequential ordering of the two operations)")
+		}
+	}
 	// ---- R16.8 a channel kept in a struct field is closed only if nobody else sends on it:
 	// a send on a closed channel panics, and Close() of a face runs on another goroutine than
 	// the senders (the component, the face's send goroutine, other faces' teardown through
